@@ -108,10 +108,10 @@ func (w *World) GenInfo(gname string) *GenInfo {
 	})
 	gi.R1 = w.intTable(p, pref+"R1")
 	gi.R2 = w.intTable(p, pref+"R2")
-	if c, ok := scopeLookup(p.Types.Scope(), pref + "Private").(*types.Const); ok {
+	if c, ok := scopeLookup(p.Types.Scope(), pref+"Private").(*types.Const); ok {
 		gi.Private, _ = constant.Int64Val(c.Val())
 	}
-	if v, ok := scopeLookup(p.Types.Scope(), pref + "Toknames").(*types.Var); ok {
+	if v, ok := scopeLookup(p.Types.Scope(), pref+"Toknames").(*types.Var); ok {
 		init, ip := w.VarInit(v)
 		if cl, ok := init.(*ast.CompositeLit); ok {
 			for _, e := range cl.Elts {
